@@ -435,5 +435,22 @@ InvRawSuper == IdleNow => \A m \in Meas : m \notin tornT =>
 \* generation configs: every maximal history is printed once (as JSON) when TLC evaluates this "invariant"
 Emit == (RecHist /\ IdleNow /\ nops = MaxOps) => PrintT("@@J" \o ToJson(hist))
 
+\* Directed generation (configs with CONSTRAINT FollowsScript / INVARIANT EmitScript): a fixed handful of histories that are
+\* always replayed. Shape: a log holding series tombstones (of ids the series file may already have forgotten) is compacted,
+\* the index is reopened (Partition.seriesIDSet rebuilt from the files' series / tombstone sets), then the drop that must
+\* remove the measurement - or the re-creation that must make the series visible again - follows.
+SOp(a, ss) == [a |-> a, ss |-> ss]
+Scripts == {
+  <<SOp("create", {1, 2}), SOp("drop", {1}), SOp("compact", {}), SOp("reopen", {}), SOp("drop", {2})>>,
+  <<SOp("create", {1, 2}), SOp("compact", {}), SOp("drop", {1}), SOp("compact", {}), SOp("reopen", {}), SOp("drop", {2})>>,
+  <<SOp("create", {1}), SOp("create", {2}), SOp("drop", {2}), SOp("compact", {}), SOp("reopen", {}), SOp("drop", {1}), SOp("reopen", {})>>,
+  <<SOp("create", {1, 2}), SOp("drop", {1}), SOp("compact", {}), SOp("reopen", {}), SOp("create", {1}), SOp("drop", {1, 2})>>,
+  <<SOp("create", {1, 3}), SOp("create", {2}), SOp("drop", {1, 2, 3}), SOp("compact", {}), SOp("reopen", {}), SOp("create", {2}), SOp("compact", {})>>,
+  <<SOp("create", {1, 2}), SOp("drop", {2}), SOp("create", {2}), SOp("compact", {}), SOp("reopen", {}), SOp("drop", {1}), SOp("drop", {2})>> }
+HMatch(h, o) == h.a = o.a /\ (o.a \in {"create", "drop"} => SeqSet(h.ss) = o.ss)
+OnScript(sc) == Len(hist) <= Len(sc) /\ \A i \in 1..Len(hist) : HMatch(hist[i], sc[i])
+FollowsScript == \E sc \in Scripts : OnScript(sc)
+EmitScript == (RecHist /\ IdleNow /\ \E sc \in Scripts : OnScript(sc) /\ Len(hist) = Len(sc)) => PrintT("@@J" \o ToJson(hist))
+
 View == <<live, tornM, tornT, sfl, gen, files, pset, cache, flow>>
 =============================================================================
